@@ -157,6 +157,10 @@ func rtInputs(c *config, stream string, ngen int) []rtInput {
 			add("definitions", "attr-func-"+a, shape("", "", a))
 		}
 	}
+	// the canonical NaNs and infinities of every kind, both signs (what the printer itself writes for a NaN)
+	add("spelling", "special-floats", "@h0 = global half 0xH7E00\n@h1 = global half 0xHFE00\n@h2 = global half 0xH7C00\n@h3 = global half 0xHFC00\n@f0 = global float 0x7FF8000000000000\n@f1 = global float 0xFFF8000000000000\n@f2 = global float 0xFFF0000000000000\n@d0 = global double 0x7FF8000000000000\n@d1 = global double 0xFFF8000000000000\n@d2 = global double 0x7FF0000000000000\n@q0 = global fp128 0xL00000000000000007FFF800000000000\n@q1 = global fp128 0xL0000000000000000FFFF800000000000\n@q2 = global fp128 0xL0000000000000000FFFF000000000000\n@q3 = global fp128 0xL00000000000000003FFF000000000000\n@x0 = global x86_fp80 0xK7FFF8000000000000000\n@x1 = global x86_fp80 0xKFFFF8000000000000000\n@x2 = global x86_fp80 0xK3FFF8000000000000000\n")
+	// constant expressions with every optional flag the grammar gives them
+	add("definitions", "constexpr-flags", "@t = global i32 0\n@c0 = global i32 ashr exact (i32 -64, i32 2)\n@c1 = global i32 lshr exact (i32 64, i32 2)\n@c2 = global i32 add nuw nsw (i32 1, i32 2)\n@c3 = global i32 shl nuw (i32 1, i32 3)\n@c4 = global i32 sub nsw (i32 5, i32 2)\n@c5 = global i32 mul nuw (i32 5, i32 2)\n@c6 = global i32* getelementptr inbounds (i32, i32* @t, i32 1)\n@c7 = global i32* getelementptr (i32, i32* @t, i32 1)\n@c8 = global i32 ashr (i32 -64, i32 2)\n")
 	add("spelling", "quoting", "@\"plain\" = global i32 0 ; comment\n\n\n  @\"with space\"   =   global   i32   1\ndefine void @\"f\"() {\n\"entry\":\n\tret void\n}\n")
 	return ins
 }
